@@ -193,6 +193,8 @@ def check_accept_any(ctx, rng):
     cfg = dict(flags)
     cfg.update({'min_length': min_length, 'min_words': min_words, 'explain_minimums': mode})
     cfg['accept_nonempty' if nonempty else 'accept_any'] = True
+    if nonempty and rng.random() < 0.4:
+        cfg['accept_any'] = True        # both switches on: accept_nonempty still demands at least one character
     g = StringGrader(**cfg)
     out = lib.call(ctx, g, None, sub)
     ctx.ev()
